@@ -95,6 +95,8 @@ type Gen struct {
 	touch []touched
 	nameN int
 	tag   string
+	// companions: valid operations that go with the planted commit-time violation
+	companions []Op
 	// Exclude hides rows from the generator (it never targets or refers to them).
 	Exclude func(table, uuid string) bool
 	// UUIDWhereOnly restricts where clauses to "_uuid == x" of a visible row.
@@ -818,6 +820,16 @@ func (g *Gen) commitViolation() ([]Op, string) {
 			for _, cn := range idx {
 				row[cn] = ValueToWire(src[cn], true)
 			}
+			if g.chance(500) {
+				// valid inserts into the same table travel with the culprit: the
+				// transaction has several rows of that table when it is rejected, and
+				// so has its re-submission without the culprit
+				for k := 0; k < 2; k++ {
+					if r, ok := g.rowFor(t, false); ok {
+						g.companions = append(g.companions, Op{"op": "insert", "table": tn, "row": r, "uuid": g.uuidFor(tn)})
+					}
+				}
+			}
 			return []Op{{"op": "insert", "table": tn, "row": row, "uuid": g.uuidFor(tn)}}, "dup-index"
 		}
 	case 2:
@@ -946,6 +958,8 @@ func (g *Gen) Txn() ([]Op, TxnMeta) {
 				meta.Culprits = append(meta.Culprits, pos+k)
 			}
 			meta.Planted = "commit:" + kind
+			ops = append(ops, g.companions...)
+			g.companions = nil
 		}
 	} else if g.chance(g.prof.FailPermil) {
 		bad, kind := g.failingOp()
